@@ -10,7 +10,7 @@ CLAIMS = {
          "ideal AEAD/HKDF (DESIGN 4.6); adversary = edit scripts over honest streams; the inductive step stops at the first error, a separate three-record scenario (one wire segment corrupted / dropped / doubled) reads on after errors",
          "solver-based symbolic execution with idealised crypto; quantifier-free encoding of whole-ciphertext equality over functional byte arrays"),
  "C03": ("real DoHandshake of both parties executed symbolically against each other with arbitrary passphrases / expected keys under the ideal-crypto model: mismatch => responder writes 0 bytes, nobody derives keys",
-         "ideal cryptography (DESIGN 4.6); adversary who knows a key is outside",
+         "ideal cryptography (DESIGN 4.6) incl. an abstract group model under which the real SPAKE2 masking code (ekeMask/ekeUnmask) is executed; repeated attempts in one process; adversary who knows a key is outside",
          "solver-based symbolic execution of the two-party handshake (goroutine layer) with ideal primitives"),
  "C04": ("two-party handshake, all version ranges, both patterns, payload lengths around the v0 frame limit, active MITM on version bytes (all values 0..3 on all acts) and single-byte flips: both completing => agreement on keys, version, identities, payload and rendezvous switch; pairing handshake followed by the repeat handshake on the same ConnData (payload slices with spare capacity, AEAD destination aliasing modelled)",
          "ideal cryptography (DESIGN 4.6); one known finding (version bytes not in the transcript) is reported as KNOWN-FINDING, any other divergence is a violation",
@@ -28,7 +28,7 @@ CLAIMS = {
          "ideal AEAD/HKDF; HKDF freshness assumed",
          "solver-based inductive step with ideal primitives + syntactic information-flow check on symbolic terms"),
  "C09": ("inductive window invariant on the real queue code for all window sizes and all 256 ACK/NACK values in single queries; negotiated window from every SYN value",
-         "window invariant stated in harness/gbn/c09.go; blocking behaviour of Send under withheld ACKs is covered only through the whole-endpoint runs of C01/C06",
+         "window invariant stated in harness/gbn/c09.go; blocking behaviour: whole-connection runs with withheld answers for n in {1,2,3,20}, keep-alive off and on (default schedule); server window after scripted handshakes incl. restart paths; post-resend wait ends on NACK(top)",
          "solver-based inductive step over symbolic pre-state (z3 bit-vectors)"),
  "C10": ("real client and server constructors run against each other on the virtual clock with symbolic fates for the first handshake packets of each direction, stale packets with symbolic bytes, three start orders and four window sizes, followed by a request/reply exchange: no crash, no silent hang, no foreign window, fault-free attempts succeed",
          "bounds: faults<=3 per direction, <=2 stale packets of <=3 symbolic bytes, horizon 120 virtual s; a stray duplicate that tears the fresh connection down visibly is accepted (the statement's 'fails with an error' branch)",
@@ -37,16 +37,16 @@ CLAIMS = {
          "one reconnect cycle per run, relay faults<=2, default schedule; ideal cryptography; in-memory relay model",
          "bounded symbolic execution of the composed endpoints with ideal crypto"),
  "C12": ("Close injected at several instants of virtual time by either/both sides, once or twice, with blocked Send/Recv, healthy or silent transport, keep-alive on/off: bounded return, failing calls, peer notification, and an empty set of goroutines and tickers at quiescence",
-         "bounds: window<=2, 5 close instants, default schedule (+1 deviation and one symbolic packet fate in thorough)",
+         "bounds: window<=2, 5 close instants, default schedule (+1 deviation and one symbolic packet fate in thorough); Close inside a retransmission with a one-way outage (FIN must still reach the peer, no ticker left running); mailbox connection with stalled relay streams",
          "bounded symbolic execution with engine-owned scheduler; leak check on the engine's goroutine/timer tables"),
  "C13": ("keep-alive runs on the virtual clock: transport silenced at symbolic idle offsets with 0..N+1 queued messages must close within ping+pong+slack; a healthy idle pair with latency below the pong timeout survives 10 virtual minutes",
-         "three ping/pong settings, window<=3, default schedule; slack 20 s for boosted resend-sync waits",
+         "four ping/pong settings, window<=3, default schedule; slack 20 s for boosted resend-sync waits; answer latency chosen per keep-alive cycle (2%, 34%, 99.7% of the pong timeout) for the first 3-4 cycles",
          "bounded symbolic execution with discrete-event virtual time"),
  "C14": ("all (length, chunk size) pairs up to the bound with symbolic contents, sequences of two messages, deadlines expiring at every chunk boundary on the virtual clock",
-         "payload<=9, chunk<=10 (thorough); one known finding (Send timing out mid-message) reported as KNOWN-FINDING",
+         "payload<=9, chunk<=10 (thorough), symbolic lengths up to 4 MiB and chunk sizes up to MaxInt in the large/huge harnesses; expired (zero/negative) receive timeouts with both select outcomes; one known finding (Send timing out mid-message) reported as KNOWN-FINDING",
          "solver-based bounded symbolic execution (case split on lengths, symbolic contents)"),
  "C15": ("inductive Read step for NoiseGrpcConn, NoiseConn and connKit from an arbitrary carry-over state with a real record of symbolic length and a symbolic buffer size; writes of symbolic length; zero-length records",
-         "ideal AEAD; carry-over invariant in harness/mailbox/c15.go; stream contents compared at symbolic witness indices",
+         "ideal AEAD (destination aliasing modelled); carry-over invariant in harness/mailbox/c15.go; read buffers are windows of larger allocations and are overwritten after Read; writes across a transport timeout on NoiseGrpcConn (quick) and NoiseConn (thorough only: 1-2 min of solver time); stream contents compared at symbolic witness indices",
          "solver-based inductive step over functional (symbolic-length) byte arrays"),
  "C16": ("Flush with every split of a symbolic-length record into up to 4 partial writes; real two-party handshake and record reads over fragmenting streams",
          "fragment sizes in the handshake are case-split over {1,7,len-1} (plus all-1-byte and all-7-byte delivery), not every size",
@@ -55,13 +55,13 @@ CLAIMS = {
          "inverse word-table lemma checked concretely per run; ideal SHA-512/HMAC/ECDH",
          "solver-based symbolic execution with guarded if-conversion (bit-vector validity queries)"),
  "C18": ("race mode: pairs of operations on ticker, timeout manager and queue from two goroutines under all schedules within 2 deviations, plus a live keep-alive pair with four application goroutines; vector-clock happens-before detection, channel-misuse panics, deadlocks",
-         "per-channel vector clocks over-approximate happens-before (missed races possible, no false races); sequentially consistent memory; <=2 schedule deviations",
+         "per-channel vector clocks over-approximate happens-before (missed races possible, no false races); sequentially consistent memory; <=2 schedule deviations; two callers of Send/Recv at once, both timeout setters at once (no lost update), the real receive loop against the setters, a packet arriving at the pong expiry",
          "bounded schedule exploration in the symbolic engine with happens-before race detection"),
  "C19": ("round trip and canonical re-encoding of all six GBN packet types and MsgData with all field values symbolic and payloads up to 64 symbolic bytes",
          "payload length bound 8 quick / 64 thorough",
          "solver-based bounded symbolic execution (z3)"),
  "C20": ("inductive step of the TimeoutManager from an arbitrary valid state under a symbolic clock for every event type; float32 boost arithmetic decided as SMT FloatingPoint",
-         "state invariant in harness/gbn/c20.go; durations<=2^40 ns, boost count<=1024",
+         "state invariant in harness/gbn/c20.go; durations<=2^40 ns, boost count<=1024; two- and three-event scenarios for fresh samples, duplicate ACKs, back-to-back retransmissions; server handshake scripts for samples after a resent SYN",
          "solver-based inductive step incl. floating-point theory (z3)"),
 }
 
